@@ -31,6 +31,8 @@ RESP = [
     {"k": "resp", "status": 200, "body": "fault-until-close-body-4", "framing": "close", "body_fault": [4, "ssl"]},
     {"k": "resp", "status": 200, "body": "fault-in-chunked-body-5", "framing": "chunked", "chunk_sizes": [4, 4], "body_fault": [6, "timeout"]},
     {"k": "resp", "status": 204, "body": ""},
+    {"k": "resp", "status": 200, "headers": [["Content-Encoding", "gzip"]], "body": "announced-gzip-but-plain-text-0123456789"},
+    {"k": "resp", "status": 200, "headers": [["Content-Encoding", "deflate"]], "body": "announced-deflate-but-plain-text-012345", "keepalive": False},
     {"k": "resp", "status": 302, "headers": [["Location", "/next"]], "body": "moved"},
     {"k": "resp", "status": 303, "headers": [["Location", "/next"]], "body": "moved", "keepalive": False},
     {"k": "resp", "status": 307, "headers": [["Location", "/next"]], "body": "moved"},
@@ -48,28 +50,45 @@ RETRIES = [False, 0, 1, 3, {"total": 3, "status_forcelist": [503]}, {"total": No
 BASE_NAMES = ("KeyboardInterrupt", "SystemExit", "InjectedBase", "GeneratorExit")
 
 
+def make_body(kind: str | None, method: str) -> typing.Any:
+    """Request bodies: None / bytes, or a file-like object whose position cannot be recorded or cannot be restored (a pipe,
+    a socket file): its second hop must fail with UnrewindableBodyError *and leave the pool alone*."""
+    import io
+
+    if kind is None:
+        return b"data" if method == "POST" else None
+
+    class TellFails(io.BytesIO):
+        def tell(self) -> int:
+            raise OSError("underlying stream is not seekable")
+
+    class SeekFails(io.BytesIO):
+        def seek(self, *a: typing.Any) -> int:
+            raise OSError("Illegal seek")
+
+    return {"tell-fails": TellFails, "seek-fails": SeekFails}[kind](b"file-body-0123456789")
+
+
 def build_retries(r: typing.Any) -> typing.Any:
     from urllib3.util import Retry
 
     return Retry(**r) if isinstance(r, dict) else r
 
 
+CLOSING = ("close", "read-part-close")
+
+
 def dispose(resp: typing.Any, how: str, owner_must_release: bool = False) -> None:
-    try:
-        _dispose(resp, how)
-    finally:
-        if owner_must_release:
-            # release_conn=False with a preloaded body: the body is already cached, so reading APIs never touch the
-            # connection again; the documented contract is that the caller calls release_conn()
-            resp.release_conn()
+    # (owner_must_release is kept for replay files of earlier runs; a response that was read, released or closed is
+    # disposed of - also a preloaded one handed out with release_conn=False, as urlopen()'s docstring says)
+    _dispose(resp, how)
 
 
 def _dispose(resp: typing.Any, how: str) -> None:
     if how == "read":
         resp.read()
     elif how == "data":
-        _ = resp.data
-        resp.release_conn()  # with release_conn=False the caller owns the connection even after a preloaded body
+        _ = resp.data  # read to the end: nothing else is needed, also for a preloaded body with release_conn=False
     elif how == "read-part-release":
         resp.read(3)
         resp.release_conn()
@@ -243,7 +262,19 @@ def run_case(rec: Recorder, case: dict[str, typing.Any]) -> None:
                         if not quiescent_checks(f"after rejected call {ri}"):
                             return
                         continue
-                    resp = opener.urlopen(req["method"], url, body=(b"data" if req["method"] == "POST" else None), preload_content=cfg["preload"], release_conn=cfg["release_conn"], pool_timeout=0.001, **({"retries": build_retries(req["retries"])} if "retries" in req else {}))
+                    if req.get("body") == "nested-call":
+                        # the upload's body iterator fetches something through the same pool (piping a download into an
+                        # upload): on a blocking pool without a free slot the inner call fails with EmptyPoolError, which
+                        # then passes through the outer call - that call did check a connection out
+                        def piping_body(opener: typing.Any = opener, url: str = url) -> typing.Iterator[bytes]:
+                            yield b"first part"
+                            inner = opener.urlopen("GET", url, pool_timeout=0.001, retries=False)
+                            yield bytes(inner.data)
+
+                        body_obj: typing.Any = piping_body()
+                    else:
+                        body_obj = make_body(req.get("body"), req["method"])
+                    resp = opener.urlopen(req["method"], url, body=body_obj, preload_content=cfg["preload"] and not req.get("stream"), release_conn=cfg["release_conn"], pool_timeout=0.001, **({"retries": build_retries(req["retries"])} if "retries" in req else {}))
                 except BaseException as e:  # noqa: BLE001
                     exc = e
                 rec.mon("request")
@@ -257,7 +288,7 @@ def run_case(rec: Recorder, case: dict[str, typing.Any]) -> None:
                             return
                         rec.mon("starvation")
                         leased = sum(1 for r, _ in held if getattr(r, "_connection", None) is not None)
-                        if isinstance(exc, EmptyPoolError) and cfg["block"] and leased < N:
+                        if isinstance(exc, EmptyPoolError) and cfg["block"] and leased < N and req.get("body") != "nested-call":
                             # single-threaded history: a request can only find the pool empty when every slot is leased to a
                             # response the caller still holds; otherwise the call starved itself (held a slot and asked again)
                             rec.fail(case, "request-starved-although-slots-free", dict(shape, leased=leased, maxsize=N, preload=cfg["preload"], release_conn=cfg["release_conn"]), f"EmptyPoolError with {leased} of {N} slots leased to the caller")
@@ -351,9 +382,12 @@ def dispose_and_check(rec: Recorder, case: dict[str, typing.Any], net: netsim.Ne
         elif not any(exc is b for b in injected):
             rec.fail(case, "interrupt-not-propagated-unchanged", {"request": ri, "during": "disposal:" + how}, f"{how} raised {type(exc).__name__} which is not the injected object")
             return False
-        # after a failed read the caller still disposes of the response (as any careful caller does)
+        # after a failed read the caller still disposes of the response (as any careful caller does): by
+        # release_conn() or by close(), alternating with the request index and the disposal
+        after = case.get("after_error") or ("close" if (ri + len(how)) % 2 else "release")
+        rec.seen("after_error_disposals", after)
         try:
-            resp.release_conn()
+            resp.close() if after == "close" else resp.release_conn()
         except Exception as e2:  # noqa: BLE001
             rec.fail(case, "release-after-error-raised", {"request": ri, "exc": type(e2).__name__}, repr(e2))
             return False
@@ -410,6 +444,8 @@ def random_request(rng: typing.Any, first_fault_only: bool = False) -> dict[str,
         else:
             attempts.append(dict(rng.choice(RESP)))
     req = {"method": rng.choice(["GET", "GET", "POST"]), "attempts": attempts, "disposal": rng.choice(DISPOSALS), "dispose_when": rng.choice(["now", "now", "late"])}
+    if rng.random() < 0.08:
+        req.update(method="PUT", body=rng.choice(["tell-fails", "seek-fails"]))
     if rng.random() < 0.06:
         return {"method": "GET", "attempts": [], "disposal": "read", "dispose_when": "now", "bad_arg": rng.choice(["timeout", "pool_timeout", "timeout-bool"])}
     if rng.random() < 0.2:
@@ -478,6 +514,41 @@ def run_shard(ctx: Ctx, rec: Recorder) -> None:
                         reqs += [{"method": "GET", "attempts": [], "disposal": "read", "dispose_when": "now", "bad_arg": bad}, {"method": "GET", "attempts": [], "disposal": "read", "dispose_when": "now"}] if nleased < maxsize or not block else [{"method": "GET", "attempts": [], "disposal": "read", "dispose_when": "now", "bad_arg": bad}]
                         case = {"cfg": cfg, "requests": reqs, "shape": "rejected-call", "lease_probe": False}
                         rec.case(["rejected-call", cfg, bad, nleased])
+                        run_case(rec, case)
+    # (i-d) a file-like body that cannot be rewound takes a second hop (redirect, status retry, connection-error retry)
+    # while other responses are still leased: the refusal of the second hop must not touch the pool's slots
+    second_hops = [[{"k": "resp", "status": 307, "headers": [["Location", "/next"]], "body": ""}], [{"k": "resp", "status": 503, "body": "busy"}], [{"k": "recv", "err": "reset"}], [{"k": "send", "err": "EPIPE", "at": 0}], [{"k": "connect", "err": "ECONNREFUSED"}]]
+    for kind in ("direct", "forward"):
+        for maxsize in (1, 2):
+            for block in (True, False):
+                for bodykind in ("tell-fails", "seek-fails"):
+                    for hi, hop in enumerate(second_hops):
+                        for nleased in (0, 1, 2):
+                            idx += 1
+                            if not ctx.mine(idx) or (block and nleased >= maxsize) or nleased > maxsize:
+                                continue
+                            cfg = {"kind": kind, "maxsize": maxsize, "block": block, "retries": {"total": 3, "status_forcelist": [503], "allowed_methods": None}, "preload": False, "release_conn": None}
+                            reqs = [{"method": "GET", "attempts": [{"k": "resp", "status": 200, "body": "leased-body-0123456789"}], "disposal": "read", "dispose_when": "late"} for _ in range(nleased)]
+                            reqs += [{"method": "PUT", "body": bodykind, "attempts": [dict(o) for o in hop], "disposal": "read", "dispose_when": "now"}, {"method": "GET", "attempts": [], "disposal": "read", "dispose_when": "now"}]
+                            case = {"cfg": cfg, "requests": reqs, "shape": "unrewindable-second-hop", "lease_probe": False}
+                            rec.case(["unrewindable-second-hop", cfg, bodykind, hi, nleased])
+                            rec.mon("unrewindable_second_hop")
+                            run_case(rec, case)
+    # (i-e) a body iterator that makes a request of its own through the same pool
+    for kind in ("direct", "forward"):
+        for maxsize in (1, 2):
+            for block in (True, False):
+                for nleased in (0, 1):
+                    for retries in (False, 1):
+                        idx += 1
+                        if not ctx.mine(idx) or (block and nleased >= maxsize):
+                            continue
+                        cfg = {"kind": kind, "maxsize": maxsize, "block": block, "retries": retries, "preload": True, "release_conn": None}
+                        reqs = [{"method": "GET", "attempts": [{"k": "resp", "status": 200, "body": "leased-body-0123456789"}], "disposal": "read", "dispose_when": "late", "stream": True} for _ in range(nleased)]
+                        reqs += [{"method": "PUT", "body": "nested-call", "attempts": [], "disposal": "data", "dispose_when": "now"}, {"method": "GET", "attempts": [], "disposal": "data", "dispose_when": "now"}]
+                        case = {"cfg": cfg, "requests": reqs, "shape": "nested-call-in-body", "lease_probe": False}
+                        rec.case(["nested-call", cfg, nleased])
+                        rec.mon("nested_call_in_body")
                         run_case(rec, case)
     rec.exhaustive_parts.append(f"single-outcome histories: {len(ALL_OUTCOMES)} outcomes x 3 pool kinds x maxsize 1/2 x block x 4 retry policies x preload x release_conn x disposals, strided 1/{stride}")
     # (ii) random histories of 1-3 requests with 1-3 attempts each, overlapping leases
